@@ -66,13 +66,14 @@ def mkcase(cid, text, files=(), origin="generated", second=None, kind="", pretex
 class C02(Prop):
     id = "C02"
     title = "Compiling any source text is safe and leaves the compiler reusable"
-    lean_modules = ["NV.C02.Props", "NV.C02.Witness", "NV.C02.LemmasBuf", "NV.C02.Emit"]
+    lean_modules = ["NV.C02.Props", "NV.C02.Witness", "NV.C02.LemmasBuf", "NV.C02.Emit", "NV.C02.PropsReset"]
     theorems = ["NV.C02.table_writes_in_bounds", "NV.C02.table_cursors_in_allocation", "NV.C02.mem_block_fits",
                 "NV.C02.include_depth_bounded", "NV.C02.include_stack_empty_after_end", "NV.C02.lexer_flag_clear_after_start", "NV.C02.yytext_in_bounds",
                 "NV.C02.scratch_writes_in_bounds", "NV.C02.scratch_empty_after_destroy", "NV.C02.idents_restored", "NV.C02.locals_reset_after_cleanup",
                 "NV.C02.add_input_writes_in_bounds", "NV.C02.add_input_never_nests", "NV.C02.macro_args_in_bounds",
                 "NV.C02.macro_body_in_bounds", "NV.C02.define_text_in_bounds", "NV.C02.terminator_in_bounds",
-                "NV.C02.include_macro_hops_bounded", "NV.C02.reserved_covers_written", "NV.C02.code_writes_in_block"]
+                "NV.C02.include_macro_hops_bounded", "NV.C02.reserved_covers_written", "NV.C02.code_writes_in_block",
+                "NV.C02.compiler_state_reset"]
     witness_theorems = []
     # how far a STORE_* macro of lib/port/byte_code.h advances the code pointer = what ins_* writes (MEASURED by
     # running the macro in the probe, not copied)
